@@ -6,7 +6,7 @@
    cdata.  `reduce sg bits z` (C04/Spec.v) is C's conversion result: the unique value of the
    target's range congruent to z modulo 2^bits (C04_reduce_canonical). *)
 From Coq Require Import ZArith List Bool Lia.
-From Cffi Require Import C03.Mem C04.Spec C04.Model C04.Proofs.
+From Cffi Require Import C03.Mem C04.Spec C04.IR C04.Gen C04.Model C04.Interp C04.Proofs C04.GenProofs.
 Import ListNotations.
 Open Scope Z_scope.
 
@@ -68,6 +68,19 @@ Theorem C04_ptr_roundtrip : forall (sg : bool) (psize : nat) a,
 Proof. exact ptr_roundtrip. Qed.
 Print Assumptions C04_ptr_roundtrip.
 
+(* the decisive structure of cast_to_integer_or_char as it stands in the source (regenerated into
+   C04/Gen.v: order of the source-kind tests, strict flag of the final integer conversion, the
+   statement sequence after got_value: — in particular `value = !!value` BEFORE the truncating
+   store), run inside the hand-written branch bodies, is exactly the model the theorems above are
+   about *)
+Theorem C04_gen_cast_refines : forall T s, gen_cast_bytes T s = cast_bytes T s.
+Proof. exact gen_cast_bytes_refines. Qed.
+Print Assumptions C04_gen_cast_refines.
+
+Theorem C04_gen_cast_not_strict : cast_number_strict = false.
+Proof. exact gen_cast_not_strict. Qed.
+Print Assumptions C04_gen_cast_not_strict.
+
 (* non-vacuity and a few readings of the statement *)
 Example C04_ex_wf : wf_cty (mk_cty KSigned 2) /\ wf_cty (mk_cty (KChar true) 4) /\ wf_cty (mk_cty (KChar false) 1).
 Proof. unfold wf_cty; cbn; repeat split; try lia; try discriminate; intros; try lia;
@@ -85,4 +98,7 @@ Example C04_ex_ptr : int_of_cast (mk_cty KSigned 8) (SPtr (2 ^ 64 - 16)) = COk (
 Proof. vm_compute. split; reflexivity. Qed.
 Example C04_ex_errors : int_of_cast (mk_cty KSigned 4) (SStrLen 2) = CErr CTypeError /\
                         int_of_cast (mk_cty KBool 1) SFloatNan = COk 1.
+Proof. vm_compute. split; reflexivity. Qed.
+Example C04_ex_gen : gen_cast_bytes (mk_cty KBool 1) (SPtr 256) = COk [1] /\
+                     gen_cast_bytes (mk_cty KSigned 2) (SInt (-2)) = COk [254; 255].
 Proof. vm_compute. split; reflexivity. Qed.
